@@ -146,6 +146,8 @@ def run_contract(qualname, scenario_index, tier, seed, falsify_n):
     load_contracts()
     contract = api.CONTRACTS[qualname]
     scenario = contract.scenarios[scenario_index]
+    if falsify_n:
+        falsify_n = max(falsify_n, contract.replays * (1 if tier == "quick" else 5))
     out = {
         "contract": qualname,
         "scenario": scenario,
